@@ -112,21 +112,33 @@ func runC08(tier string, seed uint64) {
 			}
 			cl := func(n int) [2]string { return [2]string{"Content-Length", strconv.Itoa(n)} }
 			for _, key := range []string{"obj", "new"} {
-				// digest x declared length
-				for _, dn := range dorder {
-					for _, delta := range []int{0, -1, 1} {
-						hdr := [][2]string{cl(len(body) + delta)}
-						if dn != "none" {
-							hdr = append(hdr, [2]string{"Content-MD5", digests[dn]})
+				// digest x declared length, for a 12-byte, an empty and a 1-byte body
+				for bi, body := range [][]byte{body, {}, []byte("x")} {
+					digests := digests
+					if bi > 0 {
+						digests = map[string]string{
+							"good": b64md5(body), "wrong": b64md5(other), "malformed": "!!!not-base64!!!", "short": base64.StdEncoding.EncodeToString([]byte("12345")),
+							"unpadded": strings.TrimRight(b64md5(body), "="), "empty": "",
 						}
-						r := s.PutRaw(b, key, hdr, body, -1)
-						nontrivial(fmt.Sprint(kind, noInt, key, dn, delta))
-						snapshot()
-						if r.Status == 200 && key == "new" {
-							s.Delete(b, "new")
-						}
-						if r.Status == 200 && key == "obj" {
-							s.Put(b, "obj", []byte("the previous object"), []KV{{"X-Amz-Meta-Keep", "me"}, {"Content-Type", "text/x-prev"}})
+					}
+					for _, dn := range dorder {
+						for _, delta := range []int{0, -1, 1} {
+							if bi > 0 && (dn == "short" || dn == "unpadded" || dn == "empty") && delta != 0 {
+								continue
+							}
+							hdr := [][2]string{cl(len(body) + delta)}
+							if dn != "none" {
+								hdr = append(hdr, [2]string{"Content-MD5", digests[dn]})
+							}
+							r := s.PutRaw(b, key, hdr, body, -1)
+							nontrivial(fmt.Sprint(kind, noInt, key, dn, delta, len(body)))
+							snapshot()
+							if r.Status == 200 && key == "new" {
+								s.Delete(b, "new")
+							}
+							if r.Status == 200 && key == "obj" {
+								s.Put(b, "obj", []byte("the previous object"), []KV{{"X-Amz-Meta-Keep", "me"}, {"Content-Type", "text/x-prev"}})
+							}
 						}
 					}
 				}
@@ -197,5 +209,5 @@ func runC08(tier string, seed uint64) {
 			s.end()
 		}
 	}
-	sample("per backend x integrity on/off (metadata limit 300): PUT over an existing object and over an absent key with Content-MD5 in {absent, good, wrong, malformed, 5-byte digest, unpadded, empty header} x declared length {exact, short by 1, long by 1}; missing / non-numeric / negative / empty Content-Length; empty body with a declared length; body reader failing after every k in 0..len; keys of 1023/1024/1025 bytes; metadata totalling limit-1 / limit / limit+1; the same digest x length matrix, bad part numbers and failing readers for upload-part; after each request a snapshot (GET+HEAD of the previous object, GET of the absent key, bucket listing, ListParts of the pending upload)")
+	sample("per backend x integrity on/off (metadata limit 300): PUT over an existing object and over an absent key with Content-MD5 in {absent, good, wrong, malformed, 5-byte digest, unpadded, empty header} x declared length {exact, short by 1, long by 1} x body {12 bytes, empty, 1 byte}; missing / non-numeric / negative / empty Content-Length; empty body with a declared length; body reader failing after every k in 0..len; keys of 1023/1024/1025 bytes; metadata totalling limit-1 / limit / limit+1; the same digest x length matrix, bad part numbers and failing readers for upload-part; after each request a snapshot (GET+HEAD of the previous object, GET of the absent key, bucket listing, ListParts of the pending upload)")
 }
